@@ -181,13 +181,31 @@ Qed.
 Definition dgram_tagged (arrivals : list tagged) : list tagged :=
   concat (map (fun t => tag (fst t) (frame (snd t))) arrivals).
 
+Theorem dgram_lines_is_spec sz arrivals : 1 <= sz ->
+  dgram_lines sz arrivals = dgram_lines_spec sz arrivals.
+Proof.
+  intros Hsz. unfold dgram_lines, dgram_lines_spec. rewrite deliver_dg_cut by exact Hsz.
+  rewrite map_map. reflexivity.
+Qed.
+
+Definition fits (sz : nat) (arrivals : list tagged) : Prop :=
+  Forall (fun t => length (snd t) <= sz) arrivals.
+
+Lemma dgram_lines_fits sz arrivals : 1 <= sz -> fits sz arrivals ->
+  dgram_lines sz arrivals = frame (concat (map snd arrivals)).
+Proof.
+  intros Hsz Hf. unfold dgram_lines. apply deliver_dg_fits; [exact Hsz|].
+  apply Forall_forall. intros d Hin. apply in_map_iff in Hin as (t & <- & Ht).
+  exact (proj1 (Forall_forall _ _) Hf t Ht).
+Qed.
+
 Theorem dgram_whole_lines sz arrivals :
-  1 <= sz -> Forall (fun t => terminated (snd t)) arrivals ->
+  1 <= sz -> fits sz arrivals -> Forall (fun t => terminated (snd t)) arrivals ->
   dgram_lines sz arrivals = map snd (dgram_tagged arrivals) /\
   forall i, project i (dgram_tagged arrivals) = concat (map frame (project i arrivals)).
 Proof.
-  intros Hsz Hall. split.
-  - unfold dgram_lines. rewrite deliver_frame by exact Hsz. unfold frame.
+  intros Hsz Hfit Hall. split.
+  - rewrite dgram_lines_fits by assumption. unfold frame.
     assert (Hd : Forall terminated (map snd arrivals)).
     { apply Forall_forall. intros d Hin. apply in_map_iff in Hin as (t & <- & Ht).
       exact (proj1 (Forall_forall _ _) Hall t Ht). }
@@ -241,6 +259,7 @@ Qed.
 Theorem empty_datagram_harmless sz a i b :
   1 <= sz -> dgram_lines sz (a ++ (i, []) :: b) = dgram_lines sz (a ++ b).
 Proof.
-  intros Hsz. unfold dgram_lines. rewrite !deliver_frame by exact Hsz.
-  rewrite !map_app, !concat_app. cbn [map snd concat app]. reflexivity.
+  intros Hsz. rewrite !dgram_lines_is_spec by exact Hsz. unfold dgram_lines_spec.
+  rewrite !map_app, !concat_app. cbn [map snd concat app firstn].
+  destruct sz; reflexivity.
 Qed.
